@@ -2,6 +2,7 @@ import CM.Proofs.InlCoverRewrite
 import CM.Proofs.InlCoverScan
 import CM.Proofs.InlCoverExamples
 import CM.Proofs.ParseScanLkCoverRewrite
+import CM.Proofs.ParseAsmCoverEx
 /-
 C03, inline half - "nothing lost": every letter, digit and non-ASCII byte of the unparsed runs handed to Rewrite is covered by a
 leaf of the result (20 proof files `InlCover*`: a fourth spec chain carrying the span invariant and a coverage frontier together;
@@ -32,5 +33,18 @@ theorem parseRun_run_index_monotone : type_of% @parseRun_uge := @parseRun_uge
 
 /-- The inline half under the repaired scanner hypotheses. -/
 theorem rewrite_cover2 : type_of% @CM.Proofs.InlH2.rewriteE_cover := @CM.Proofs.InlH2.rewriteE_cover
+
+/-- **C03 "nothing lost" through Rewrite, for the whole of `Parse`**: every needed byte a leaf of a root's block-phase tree covers is
+    covered by a leaf of its final tree - given the decidable document fact `ParseTails` (`Props/C02Scan.lean`) and the coverage facts
+    of the four byte scanners on the containers of the block-phase trees (`ScanCovE`: what the HTML-tag, code-span, inline-link and
+    label scanners skip holds no needed byte outside their text pieces). The third clause of the per-container coverage hypothesis
+    (needed bytes covered by inline children lie in Unparsed runs) is discharged for block-phase trees (`blockphase_contsCovE`), and
+    the content-less heading needs no special hypothesis. -/
+theorem parse_cover_of_tails_scan : type_of% @CM.Proofs.PSc.parse_cover_of_tails_scan := @CM.Proofs.PSc.parse_cover_of_tails_scan
+theorem parse_cover_of_tails : type_of% @CM.Proofs.PSc.parse_cover_of_tails := @CM.Proofs.PSc.parse_cover_of_tails
+theorem rewrite_cover_E : type_of% @CM.Proofs.PSc.rewriteE_cover_E := @CM.Proofs.PSc.rewriteE_cover_E
+theorem blockphase_contsCovE : type_of% @CM.Proofs.PSc.blockphase_contsCovE := @CM.Proofs.PSc.blockphase_contsCovE
+/-- The scanner coverage facts hold trivially for sources without `<`, a backtick, `(` and `[` (used for the non-vacuity instance). -/
+theorem scanCovE_of_plain : type_of% @CM.Proofs.PSc.scanCovE_of_plain := @CM.Proofs.PSc.scanCovE_of_plain
 
 end CM.Props.C03
